@@ -254,42 +254,48 @@ pub fn run(a: &Args, r: &mut Report) {
                         continue;
                     }
                 };
-                for (i, ema) in [(0usize, false), (3usize, true)] {
-                    let (unb, low, high) = (&v[i], &v[i + 1], &v[i + 2]);
-                    let ok = px.conf_ok(ema);
-                    let p_ref = if ema { &px.ema } else { &px.spot };
-                    r.distinct(&(kname, ema, format!("{:?}", ok), p_ref.is_positive(), (to_f64(&px.bias(ema)) * 100.0 / to_f64(p_ref).abs().max(1e-30)) as i64, bank.config.oracle_max_age, age_off));
-                    if ok == Tri::No && (low.is_some() || high.is_some()) {
-                        r.violate("C09", &format!("C09/adapter/{}/biased-price-despite-confidence-above-maximum", kname), format!("price {} k*conf {} max fraction {}", show(p_ref), show(if ema { &px.ema_kc } else { &px.spot_kc }), show(&px.max_conf)));
-                    }
-                    let tol = &px.e * ri(8) + ulp() * ri(16) + abs(p_ref) * ulp() * ri(4);
-                    if let Some(u) = unb {
-                        if abs(&(bits_to_rat(u.to_bits()) - p_ref)) > tol {
-                            r.violate("C09", &format!("C09/adapter/{}/unbiased-price-differs-from-reported", kname), format!("adapter {} reference {}", u, show(p_ref)));
-                        }
-                    }
-                    if let (Some(l), Some(h)) = (low, high) {
-                        let (lr, hr) = (bits_to_rat(l.to_bits()), bits_to_rat(h.to_bits()));
-                        r.count("C09.bias_pairs_checked");
-                        if lr > p_ref + &tol {
-                            r.violate("C09", &format!("C09/adapter/{}/low-biased-price-above-reported", kname), format!("low {} reported {}", l, show(p_ref)));
-                        }
-                        if hr < p_ref - &tol {
-                            r.violate("C09", &format!("C09/adapter/{}/high-biased-price-below-reported", kname), format!("high {} reported {}", h, show(p_ref)));
-                        }
-                        if ok == Tri::Yes {
-                            let b = px.bias(ema);
-                            if abs(&(p_ref - &lr - &b)) > tol || abs(&(&hr - p_ref - &b)) > tol {
-                                r.violate("C09", &format!("C09/adapter/{}/bias-not-min-of-scaled-confidence-and-5-percent", kname), format!("reported {} low {} high {} expected bias {}", show(p_ref), l, h, show(&b)));
-                            }
-                            r.max("C09.max_bias_fraction", to_f64(&b) / to_f64(p_ref).abs().max(1e-30));
-                        }
-                        if !p_ref.is_positive() && lr.is_positive() {
-                            r.violate("C09", &format!("C09/adapter/{}/positive-price-from-non-positive-report", kname), format!("reported {} low {}", show(p_ref), l));
-                        }
-                    }
-                }
+                judge(r, kname, px, &v, bank.config.oracle_max_age, age_off);
                 r.sample_kind(kname, json!({"max_age": bank.config.oracle_max_age, "age_offset_from_boundary": age_off, "price": price, "conf": conf, "expo": expo, "reference_spot": show(&px.spot), "reference_bias": show(&px.bias(false))}));
+            }
+        }
+    }
+}
+
+/// Compare the six prices the adapter gives (real-time / time-weighted x unbiased / low / high; `None` =
+/// refused) with the reference price.
+fn judge(r: &mut Report, kname: &str, px: &refm::RefPx, v: &[Option<I80F48>], max_age: u16, age_off: i64) {
+    for (i, ema) in [(0usize, false), (3usize, true)] {
+        let (unb, low, high) = (&v[i], &v[i + 1], &v[i + 2]);
+        let ok = px.conf_ok(ema);
+        let p_ref = if ema { &px.ema } else { &px.spot };
+        r.distinct(&(kname, ema, format!("{:?}", ok), p_ref.is_positive(), (to_f64(&px.bias(ema)) * 100.0 / to_f64(p_ref).abs().max(1e-30)) as i64, max_age, age_off));
+        if ok == Tri::No && (low.is_some() || high.is_some()) {
+            r.violate("C09", &format!("C09/adapter/{}/biased-price-despite-confidence-above-maximum", kname), format!("price {} k*conf {} max fraction {}", show(p_ref), show(if ema { &px.ema_kc } else { &px.spot_kc }), show(&px.max_conf)));
+        }
+        let tol = &px.e * ri(8) + ulp() * ri(16) + abs(p_ref) * ulp() * ri(4);
+        if let Some(u) = unb {
+            if abs(&(bits_to_rat(u.to_bits()) - p_ref)) > tol {
+                r.violate("C09", &format!("C09/adapter/{}/unbiased-price-differs-from-reported", kname), format!("adapter {} reference {}", u, show(p_ref)));
+            }
+        }
+        if let (Some(l), Some(h)) = (low, high) {
+            let (lr, hr) = (bits_to_rat(l.to_bits()), bits_to_rat(h.to_bits()));
+            r.count("C09.bias_pairs_checked");
+            if lr > p_ref + &tol {
+                r.violate("C09", &format!("C09/adapter/{}/low-biased-price-above-reported", kname), format!("low {} reported {}", l, show(p_ref)));
+            }
+            if hr < p_ref - &tol {
+                r.violate("C09", &format!("C09/adapter/{}/high-biased-price-below-reported", kname), format!("high {} reported {}", h, show(p_ref)));
+            }
+            if ok == Tri::Yes {
+                let b = px.bias(ema);
+                if abs(&(p_ref - &lr - &b)) > tol || abs(&(&hr - p_ref - &b)) > tol {
+                    r.violate("C09", &format!("C09/adapter/{}/bias-not-min-of-scaled-confidence-and-5-percent", kname), format!("reported {} low {} high {} expected bias {}", show(p_ref), l, h, show(&b)));
+                }
+                r.max("C09.max_bias_fraction", to_f64(&b) / to_f64(p_ref).abs().max(1e-30));
+            }
+            if !p_ref.is_positive() && lr.is_positive() {
+                r.violate("C09", &format!("C09/adapter/{}/positive-price-from-non-positive-report", kname), format!("reported {} low {}", show(p_ref), l));
             }
         }
     }
@@ -340,7 +346,10 @@ fn venue_case(r: &mut Report, g: &mut G) {
     bank.config.oracle_keys[1] = vkey;
     bank.config.oracle_max_age = 60;
     bank.config.oracle_max_confidence = u32::MAX;
-    bank.config.oracle_setup = [OracleSetup::KaminoPythPush, OracleSetup::DriftPythPull, OracleSetup::SolendPythPull][venue];
+    // half of the cases use the Switchboard variant of the venue's oracle setup
+    let swb = g.gen_bool(0.5);
+    bank.config.oracle_setup = if swb { [OracleSetup::KaminoSwitchboardPull, OracleSetup::DriftSwitchboardPull, OracleSetup::SolendSwitchboardPull][venue] } else { [OracleSetup::KaminoPythPush, OracleSetup::DriftPythPull, OracleSetup::SolendPythPull][venue] };
+    bank.mint_decimals = 6;
     bank.config.asset_tag = [3u8, 4, 5][venue];
     let now: i64 = 1_700_000_000 + g.gen_range(0..1_000_000);
     let slot: u64 = 1_000_000 + g.gen_range(0..1_000_000u64);
@@ -400,9 +409,53 @@ fn venue_case(r: &mut Report, g: &mut G) {
     }
     let vowner = if fault == 2 { solana_sdk::system_program::ID } else { vowner };
     let presented_vkey = if fault == 1 { Pubkey::new_from_array(g.gen::<[u8; 32]>()) } else { vkey };
-    let pdata = pyth_data(&okey, price, conf, price, conf, expo, now, 0, false);
+    // the time-weighted price differs from the spot price (each must be taken through the rate once)
+    let ema: i64 = ((price as f64) * [0.9f64, 1.0, 1.07][g.gen_range(0..3)]) as i64;
+    let (pdata, powner) = if swb {
+        let scale = 10f64.powi(18 + expo);
+        let value = ((price as f64) * scale) as i128;
+        let sd = ((conf as f64) * scale) as i128;
+        (swb_data(value, sd, now, false), refm::SWB_OWNER)
+    } else {
+        (pyth_data(&okey, price, conf, ema.max(1), conf, expo, now, 0, false), refm::PYTH_OWNER)
+    };
+    // a configured maximum confidence for the gate (what the bank would pass)
+    let cfg_max_conf = [0u32, u32::MAX / 50, u32::MAX / 10, u32::MAX][g.gen_range(0..4)];
     let clock = Clock { unix_timestamp: now, slot, ..Default::default() };
-    let mut store: Vec<(Pubkey, Pubkey, u64, Vec<u8>)> = vec![(okey, refm::PYTH_OWNER, 1, pdata), (presented_vkey, vowner, 1, vdata)];
+    let mut store: Vec<(Pubkey, Pubkey, u64, Vec<u8>)> = vec![(okey, powner, 1, pdata), (presented_vkey, vowner, 1, vdata)];
+    // the shared reference (exact rate, confidence taken through the rate, fail-closed boundaries)
+    let rp = {
+        let mut b2 = bank;
+        b2.config.oracle_max_confidence = cfg_max_conf;
+        refm::set_slot(slot);
+        let ors: Vec<OracleIn> = store.iter().map(|(k, o, _, d)| OracleIn { key: *k, owner: *o, data: &d[..] }).collect();
+        refm::ref_price(&b2, &ors, now)
+    };
+    let six = {
+        let mut st2 = store.clone();
+        catch_unwind(AssertUnwindSafe(|| {
+            let ais: Vec<AccountInfo> = st2.iter_mut().map(|(k, o, l, d)| AccountInfo::new(k, false, false, l, &mut d[..], o, false, 0)).collect();
+            let ais: &[AccountInfo] = unsafe { std::mem::transmute::<&[AccountInfo], &[AccountInfo]>(&ais[..]) };
+            match OraclePriceFeedAdapter::try_from_bank(&bank, ais, &clock) {
+                Err(_) => None,
+                Ok(ad) => {
+                    let mut v = vec![];
+                    for ty in [OraclePriceType::RealTime, OraclePriceType::TimeWeighted] {
+                        for b in [None, Some(PriceBias::Low), Some(PriceBias::High)] {
+                            v.push(catch_unwind(AssertUnwindSafe(|| ad.get_price_of_type(ty, b, cfg_max_conf).ok())).unwrap_or(None));
+                        }
+                    }
+                    Some(v)
+                }
+            }
+        }))
+        .unwrap_or(None)
+    };
+    if let (Ok(px), Some(v)) = (&rp, &six) {
+        let kname = format!("{}-{}", vname, if swb { "switchboard" } else { "pyth" });
+        r.count(&format!("C09.venue_full_comparisons/{}", kname));
+        judge(r, &kname, px, v, 60, 0);
+    }
     let outcome = catch_unwind(AssertUnwindSafe(|| {
         let ais: Vec<AccountInfo> = store.iter_mut().map(|(k, o, l, d)| AccountInfo::new(k, false, false, l, &mut d[..], o, false, 0)).collect();
         let ais: &[AccountInfo] = unsafe { std::mem::transmute::<&[AccountInfo], &[AccountInfo]>(&ais[..]) };
